@@ -107,7 +107,12 @@ PayloadClause(r) == Cl("payload-independent", r.payload_ok)
 VectorGridClause(r) == Cl("vector-field-on-the-input-grid", r.vgrid = Iota(NIn(r)))
 
 WrapCommon(r) == << CalledOnce(r), ListClause(r), KindClause(r), PairingClause(r), PayloadClause(r) >>
-Wrap2D(r) == IF r.gk = "g2d" THEN << MaskClause(r), NativeClause(r) >> ELSE << >>
+\* the container itself (read as it is stored, without the .slim / .native views) holds one entry per unmasked pixel in slim order
+StoredSlimClause(r) ==
+    Cl("result-stored-with-one-entry-per-unmasked-pixel-in-slim-order",
+       /\ Len(r.raw) = Len(r.out) /\ Len(r.rawdim) = Len(r.out)
+       /\ \A e \in DOMAIN r.out : r.raw[e] = r.out[e] /\ r.rawdim[e] = (IF r.rk = "values" THEN 1 ELSE 2))
+Wrap2D(r) == IF r.gk = "g2d" THEN << MaskClause(r), NativeClause(r), StoredSlimClause(r) >> ELSE << >>
 WrapVec(r) == IF r.api = "to_vector_yx" THEN << VectorGridClause(r) >> ELSE << >>
 
 \* ---- the coordinates of the grid a call is made on: the built ones, or what the caller derived from them ------------
